@@ -944,4 +944,24 @@ theorem C10_formation_membership {nw : Network} (hn : NetHyp nw) {s : Schedule} 
       simp only [Option.some.injEq, exists_eq_left']
       exact occ_pos_iff n
 
+/-- the network hypotheses are decidable on a loaded network: the drivers evaluate `formHypsB` on
+    every network of a run (STAT `c10.formhyps`) -/
+theorem formHyps_sound (nw : Network) (h : formHypsB nw = true) : NetHyp nw := by
+  unfold formHypsB at h
+  simp only [Bool.and_eq_true] at h
+  obtain ⟨h1, h2⟩ := h
+  obtain ⟨hdt, hwf⟩ := tourHyps_sound nw h1
+  refine ⟨hdt, hwf, ?_⟩
+  unfold actPosB at h2
+  simp only [Bool.and_eq_true, Bool.not_eq_true'] at h2
+  obtain ⟨hall, hdef⟩ := h2
+  have hall := List.all_eq_true.mp hall
+  intro i hact
+  by_cases hi : i < nw.nodes.size
+  · have := hall i (by simp [Network.allIdx, hi])
+    simp only [hact, Bool.not_true, Bool.false_or] at this
+    exact this
+  · have hdn : nw.node i = default := by unfold Network.node; simp [Array.getD, hi]
+    rw [hdn, hdef] at hact; cases hact
+
 end RSSched.C10Fit
